@@ -129,6 +129,8 @@ def writer_roles(fn_node) -> dict:
                 roles[nm] = "h5file"
             elif isinstance(v0, ast.Subscript) and isinstance(v0.value, ast.Call) and getattr(v0.value.func, "id", None) == "list" and unparse(v0.slice) == "0":
                 roles[nm] = "base"
+            elif isinstance(v0, ast.Call) and getattr(v0.func, "id", None) == "list" and len(v0.args) == 1 and U(v0.args[0]) in ("h5file", "h5file.keys()"):
+                roles[nm] = "base"  # the list of top-level names; [0] is the project group
             elif txt == "h5file[base]":
                 roles[nm] = "base_handle"
             elif isinstance(v0, ast.Attribute) and v0.attr == "uid" and isinstance(v0.value, ast.Name):
